@@ -150,7 +150,7 @@ func ruleR03_1(w *World, r *Report) {
 		}
 		for i := 0; i < n.NumMethods(); i++ {
 			m := n.Method(i)
-			fn := u.Prog.FuncValue(m)
+			fn := flatRoot(u.Prog.FuncValue(m))
 			if fn == nil || len(fn.Blocks) == 0 {
 				continue
 			}
@@ -479,7 +479,7 @@ func ruleR03_2(w *World, r *Report) {
 		}
 		for i := 0; i < n.NumMethods(); i++ {
 			m := n.Method(i)
-			fn := u.Prog.FuncValue(m)
+			fn := flatRoot(u.Prog.FuncValue(m))
 			if fn == nil || len(fn.Blocks) == 0 || !m.Exported() {
 				continue
 			}
@@ -866,7 +866,7 @@ func ruleR03_7(w *World, r *Report) {
 	wantKind := map[string]int64{"PutToObject": 2, "DeleteInObject": 2, "InsertToArray": 3, "UpdateManyInArray": 3, "DeleteManyInArray": 3}
 	for i := 0; i < n.NumMethods(); i++ {
 		m := n.Method(i)
-		fn := u.Prog.FuncValue(m)
+		fn := flatRoot(u.Prog.FuncValue(m))
 		if fn == nil {
 			continue
 		}
